@@ -655,7 +655,7 @@ pub static PROP: crate::histcheck::HistProp = crate::histcheck::HistProp {
     id: "C20",
     scenario,
     judge,
-    rule: "One case = one seeded call history (5-40 operations after 1-3 compiles: scheme(path) for 2-6 device paths drawn from benign, awkward (spaces, ~ % ; # parens, non-ASCII, newline, empty, 4 KiB) and hostile (quotes, backslashes, trailing backslash) strings, io_map(), further compiles into the same slots, unrelated compilations, caller-thread switches, hash-key epochs, clock jumps, logger flips) against the real library, checked against the model handle = immutable (template, table). Non-trivial = some handle was rendered for >= 2 distinct paths or twice for one path. distinct_nontrivial counts distinct history shapes (operation kinds with slots and path indices) among non-trivial runs.",
+    rule: "One case = one seeded call history (5-40 operations after 1-3 compiles; one in 60 renders 17-1025 distinct devices on one expression and revisits early ones; one in 80 uses 8-40 look-alike expressions: scheme(path) for 2-6 device paths drawn from benign, awkward (spaces, ~ % ; # parens, non-ASCII incl. combining marks, NUL, DEL, ESC, BOM, U+2028, newline, empty, 255 bytes to 1 MiB, placeholder look-alikes, aliases of another path) and hostile (quotes and backslashes anywhere, also next to multi-byte characters) strings, io_map(), further compiles into the same slots, unrelated compilations, caller-thread switches, hash-key epochs, clock jumps, logger flips, environment changes) against the real library, checked against the model handle = immutable (template, table): same path => identical bytes; different paths => identical tokens except one string token that decodes to the path, and identical bytes outside that token. Non-trivial = some handle was rendered for >= 2 distinct paths or twice for one path. distinct_nontrivial counts distinct history shapes (operation kinds with slots and path indices) among non-trivial runs. Two further passes (coverage.concurrent_pass) run overlapping calls under controlled schedulers.",
     assumptions: &[
         "the program is read with Guile's string syntax: only backslash and double quote are special inside a string literal; escapes \\\\ \\\" \\n \\t \\a \\b \\f \\r \\v \\0 \\xHH are known, any other escape is an error",
         "caller threads are simulated at call granularity (no two calls overlap); the library has no synchronisation primitive a finer schedule could exercise",
